@@ -507,6 +507,21 @@ func execute(c *Case) *execResult {
 }
 
 func run(c Case) *vkit.Outcome {
+	// the time-out placement of the model assumes that every (source, stream) with an open run
+	// has a processor of its own (a pipeline starts with 2*GOMAXPROCS processors)
+	if !c.SingleProc {
+		pairs := map[pairKey]bool{}
+		for si := range c.Sources {
+			for li := range c.Sources[si].Lines {
+				pairs[pairKey{c.Sources[si].ID, c.Sources[si].Lines[li].Stream}] = true
+			}
+		}
+		if len(pairs) > 2*runtime.GOMAXPROCS(0) {
+			o := vkit.NewOutcome()
+			o.Class("skipped:fewer-processors-than-streams")
+			return o
+		}
+	}
 	var res *execResult
 	var bubblePanic any
 	func() {
